@@ -52,7 +52,7 @@ def shrink_history(exe, h, fails, limit=60):
     return cur
 
 
-def run_property(run, oracle, nhist, length, rule, sanitize=None, extra_histories=None, gen_kwargs=None):
+def run_property(run, oracle, nhist, length, rule, sanitize=None, extra_histories=None, gen_kwargs=None, state_oracle=None):
     """oracle(history, go_lines, lean_lines) -> None or (index, signature, text).
     Returns after run.finish()."""
     proved = run.prove()
@@ -120,6 +120,25 @@ def run_property(run, oracle, nhist, length, rule, sanitize=None, extra_historie
                         bad = (h, o)
                         break
             run.notes.append("search focused on %s over %d extra histories: %s" % (focus, len(hs2), "found" if bad else "nothing found"))
+    if bad is None and mism and state_oracle is not None:
+        # still nothing: judge the implementation's own state around every entry of the mismatching histories
+        for (h0, r0) in mism[:8]:
+            cut = h0[:r0["mismatch"][0] + 1]
+            withd = []
+            for o in cut:
+                withd.append(o)
+                if o.startswith("E"):
+                    withd.append("D")
+            g3, _ = irc_run.run_go(exe, withd, tag="irc-state")
+            if len(g3) < len(withd):
+                continue
+            o3 = state_oracle(withd, g3)
+            if o3 is not None:
+                idx3, sig3, text3 = o3
+                small = withd[:idx3 + 1]
+                run.notes.append("state-based search on %d mismatching histories: found" % len(mism[:8]))
+                run.violation(sig3, text3, {"kind": "irc", "ops": [x for x in small if x != "D"], "readable": [txt(x) or x for x in small if x != "D"], "why": text3}, True)
+                break
     if bad is not None:
         h, (idx, sig, text) = bad
 
